@@ -272,7 +272,7 @@ theorem evalDisc_discArms : ∀ (vs : List OrdVariant) (base : Option Int) (off 
         simp; omega
       rw [e]
 
-theorem arms_get : ∀ (vs : List OrdVariant) (as : List CmpArm), arms vs = some as →
+theorem cmp_arms_get : ∀ (vs : List OrdVariant) (as : List CmpArm), arms vs = some as →
     as.length = vs.length ∧ ∀ (k : Nat) (v : OrdVariant), vs[k]? = some v → ∃ a, arm v = some a ∧ as[k]? = some a := by
   intro vs
   induction vs with
